@@ -3,12 +3,11 @@
 import json, os
 V = os.path.dirname(os.path.dirname(os.path.abspath(__file__)))
 
-CLAIMED = {
- "C17": dict(
-   text="Machine-checked proof (Coq) of the order laws, converse law, monotonicity of weakening/contraction and the spelling table, stated over the graphs obtained by executing the real Modality methods on their whole finite domain (regenerated from /repo on every run); exhaustive because the domain (4 modes) is finite. A flipped table entry breaks a named law; the failing tuple is computed in Coq and replayed on the real method.",
-   design="6/C17", technique="Coq proof by exhaustive case analysis over tables regenerated from the code (behavioural translator)",
-   note="Trusted: Coq kernel + vm_compute; the dump routine harness/modes.go; ASCII lower-casing model. No axioms."),
-}
+import glob
+CLAIMED = {}
+for fn in sorted(glob.glob(os.path.join(V, "lib", "manifest.d", "*.json"))):
+    d = json.load(open(fn))
+    CLAIMED[d["property_id"]] = d
 
 NOT_YET = {}
 
